@@ -21,7 +21,7 @@ def flow(ctx, variant, count, seed):
     for stream in (0, 1, 2):
         lines = common.corpus("C07", ("FL ",)) if stream == 0 else []
         lines += common.harness_gen(h, [seed + stream, count // 3, stream])
-        impl, _, _ = common.run_both([h, "run"], None, lines, chunk=25, timeout=1500)
+        impl, _, _ = common.run_both([h, "run"], None, lines, chunk=25, timeout=240)
         out["cases"] += len(lines)
         out["lines"] += lines[:2]
         for l, i in zip(lines, impl):
@@ -37,7 +37,7 @@ def flow(ctx, variant, count, seed):
 def internal(ctx, variant, name, gen_args, chunk):
     h = common.build_harness(name, variant)
     lines = common.harness_gen(h, gen_args)
-    impl, _, _ = common.run_both([h, "run"], None, lines, chunk=chunk, timeout=1500)
+    impl, _, _ = common.run_both([h, "run"], None, lines, chunk=chunk, timeout=240)
     bad = []
     for l, i in zip(lines, impl):
         if i.startswith("DIED") or re.search(r"\b(ABORT|SEGV|FPE|SIGNAL)\b", i) or i == "<missing>":
